@@ -68,6 +68,11 @@ func makeURLKey(u *url.URL) string {
 	}
 	// RFC 3986 §6.2.2.1: Host is lowercased.
 	hostPort := strings.ToLower(host)
+	if strings.Contains(hostPort, ":") {
+		// splitHostPort strips the brackets of an IP literal; without them
+		// "[::1]:8080" and "[::1:8080]" would be indistinguishable.
+		hostPort = "[" + hostPort + "]"
+	}
 
 	// RFC 3986 §6.2.3: Only include port if it is non-default for the scheme.
 	if port != "" && port != defaultP {
